@@ -72,6 +72,13 @@ func (w *World) verifyFunction(fn *ssa.Function, blk *Block, opts *Options) *Exe
 		}
 		st.vals[fv] = sv
 	}
+	// the nil map: no keys, length 0 (never written: a store into a nil map panics and is an obligation)
+	{
+		_, dh, lh := ex.mapHeaps(st)
+		st.assume(eq(sel(lh, "0"), "0"))
+		st.assume(fmt.Sprintf("(forall ((m Int)) (! (<= 0 (select %s m)) :pattern ((select %s m))))", lh, lh))
+		st.assume(fmt.Sprintf("(forall ((k Str)) (! (not (select (select %s 0) k)) :pattern ((select (select %s 0) k))))", dh, dh))
+	}
 	// ownership ghost
 	mineH := w.ghostHeap("G_mine")
 	mine0 := ex.heapTerm(st, mineH)
